@@ -96,8 +96,11 @@ def rule_nm(ctx):
             n_mut += 1
             depth = 1
             root = recv
-            while isinstance(root, ast.Subscript):
-                root = root.value
+            while isinstance(root, ast.Subscript) or (
+                    isinstance(root, ast.Call) and isinstance(root.func, ast.Attribute)
+                    and root.func.attr in ('setdefault', 'get') and root.args):
+                # X[k] and X.setdefault(k, fresh) / X.get(k, fresh) denote an object one level below X
+                root = root.value if isinstance(root, ast.Subscript) else root.func.value
                 depth += 1
             ok = False
             why = ''
